@@ -22,6 +22,7 @@ RULE = ("histories: connected pair, drawn traffic (sizes 0..fragmented, 3 retry 
         "when any header byte is altered; CRC-form datagrams are exactly one client hello and one server hello; no message "
         "payload >= 12 bytes is visible in its datagram, no 12-byte payload id anywhere on the wire (short histories). "
         "non-trivial = the sender's counter wrapped and a keep-alive and a retransmission occurred; distinct by (wraps, mtu, seed).")
+RULE += (" " + 'Round-5 addition: about a third of the histories end with a key-holding peer that does not run the library sending, properly sealed, one more CLIENT_HELLO message while the server still has a backlog queued (labelled hist-sealed-rehello-with-backlog); the same wire oracle applies (nothing but a hello may leave in clear, a clear hello carries nothing else).')
 ASSUMPTIONS = [
     "non-decreasing clock and the protocol's 1/60 s send-rate cap (the property's preconditions)",
     "quick tier positions seq_sending / the peer window near the wrap (the only white-box write; absent in thorough)",
